@@ -61,9 +61,9 @@ def sub(tag,lt):
     co=c['co'][0 if lt else 1]
     out=[]
     out.append('theorem %s (tol : Rat) (htol : tol * tol ≤ 1 / 4) (n i j : Nat) (hi : i < n) (hj : j < n) (c : GQ)'%name)
-    out.append('    (htag : srlTag i j n = %d) (hord : %s) (hok : srlOk tol i j c n = true) (s x : Nat) :'%(tag,'i < j' if lt else 'j < i'))
-    out.append('    den .qubit (srlOp tol i j c n) [Spec.C05.enc .bk n s] [x]')
-    out.append('      = den .qubit (bkTerm tol n [(i, 1), (j, 0)] c) [Spec.C05.enc .bk n s] [x] := by')
+    out.append('    (htag : srlTag i j n = %d) (hord : %s) (s : Nat) (W : Nat → GQ) :'%(tag,'i < j' if lt else 'j < i'))
+    out.append('    (((srlBody %d i j c n).1.zip (srlBody %d i j c n).2).map fun tc => tc.2 * φW (Spec.C05.enc .bk n s) W tc.1).sum'%(tag,tag))
+    out.append('      = c * hopAct n i j s W := by')
     out.append('  have hT := tagB_spec _ _ _ _ _ %d (by rw [← srlTag_tagB]; exact htag)'%tag)
     out.append('  obtain ⟨%s⟩ := %s rfl'%(spec[tag][0].replace(', ',', '),proj(tag)))
     out.append('  have hij : i ≠ j := of_decide_eq_false hne1')
@@ -90,22 +90,16 @@ def sub(tag,lt):
     out.append('  have hb : srlBody %d i j c n = ([%s],'%(tag,',\n      '.join(c['ops'])))
     out.append('      (let coef := c * ⟨mkRat 1 4, 0⟩; %s)) := by'%co)
     out.append('    simp only [srlBody%s]'%(', hord, if_true' if (lt and c['co'][1]) else (', show ¬ i < j by omega, if_false' if c['co'][1] else '')))
-    out.append('  have hs : srl i j c n = (%d, srlBody %d i j c n) := by unfold srl; rw [htag]'%(tag,tag))
-    out.append('  unfold srlOk at hok')
-    out.append('  unfold srlOp')
-    out.append('  rw [hs] at hok ⊢')
-    out.append('  simp only [hb] at hok ⊢')
-    out.append('  rw [den_qoc tol _ _ (by intro t ht; simp only [List.mem_cons, List.not_mem_nil, or_false] at ht; rcases ht with rfl | rfl | rfl | rfl <;> vq) hok,')
-    out.append("    bkTerm_hop' tol htol n i j hi hj, ← prod_sum tol htol n i j hi hj s (δ x)]")
+    out.append('  rw [hb, ← prod_sum tol htol n i j hi hj s W]')
     out.append('  simp only [List.zip_cons_cons, List.zip_nil_right, List.map_cons, List.map_nil, List.sum_cons, List.sum_nil]')
     for m in range(4):
         a,b=c['pair'][m]; d=c['d'][1 if lt else 0][m]
         out.append('  rw [same_action\' (%s) (T%d n i ++ T%d n j) %d'%(c['ops'][m],a,b,d))
         out.append('    (by bk_point [%s]) (by bk_point [%s]) (by bk_phase [%s%s%s])]'%(allhs,allhs,ph,allhs+', g5',extra))
-    out.append('  generalize φW (Spec.C05.enc .bk n s) (δ x) (T1 n i ++ T1 n j) = f11')
-    out.append('  generalize φW (Spec.C05.enc .bk n s) (δ x) (T1 n i ++ T2 n j) = f12')
-    out.append('  generalize φW (Spec.C05.enc .bk n s) (δ x) (T2 n i ++ T1 n j) = f21')
-    out.append('  generalize φW (Spec.C05.enc .bk n s) (δ x) (T2 n i ++ T2 n j) = f22')
+    out.append('  generalize φW (Spec.C05.enc .bk n s) W (T1 n i ++ T1 n j) = f11')
+    out.append('  generalize φW (Spec.C05.enc .bk n s) W (T1 n i ++ T2 n j) = f12')
+    out.append('  generalize φW (Spec.C05.enc .bk n s) W (T2 n i ++ T1 n j) = f21')
+    out.append('  generalize φW (Spec.C05.enc .bk n s) W (T2 n i ++ T2 n j) = f22')
     out.append('  gq_arith')
     return '\n'.join(out)+'\n'
 def main(tag):
